@@ -1,6 +1,7 @@
 """Registry entry for C06 (see tools/registry.py)."""
 
 SPEC = {'id': 'C06',
+ 'lean_search': 'Snowflake/Search/C06.lean',
  'modules': ['Snowflake.Props.C06', 'Snowflake.Tie.NameMatcher'],
  'theorems': [('Snowflake.Props.C06', 'Snowflake.NameMatcher.C06.superset_sound'),
               ('Snowflake.Props.C06', 'Snowflake.NameMatcher.C06.superset_sound_rules'),
